@@ -262,7 +262,7 @@ fn gen_step(ty: &Ty, dec: &Decoded, bytes: &[u8], t: &mut Tape, cfg: &HistCfg, s
             _ => Fuel::small(),
         };
         let nv2 = gen_value(nty, t, &mut fuel);
-        let route = t.route(3);
+        let route = t.route_exact(3);
         // iterator-driven emplacers of unknown length cannot be transactional: keep to exact-size routes
         let fail = fit_failure(nty, &nv2, nd.len);
         let expect = match &fail {
@@ -466,7 +466,7 @@ fn gen_step(ty: &Ty, dec: &Decoded, bytes: &[u8], t: &mut Tape, cfg: &HistCfg, s
                     let fits = seal_ok && new_pos + os <= n && model::encode(it, &x, n - new_pos - os, 0, &mut Canonical).is_ok();
                     let mut nv2 = xs.clone();
                     nv2.push(x.clone());
-                    let route = t.route(2);
+                    let route = t.route_exact(2);
                     let mut allowed = vec![(nd.off + geo.tail_pos, nd.off + geo.tail_pos + l.size())];
                     if new_pos < n {
                         allowed.push((nd.off + new_pos, nd.off + n));
